@@ -377,6 +377,21 @@ def discharge(ctx, ob, z3_timeout_ms=None, use_cvc5=True):
                 ob.result = 'sat'
                 ob.solver = 'cvc5'
                 ob.genuine = True
+    if ob.result == 'unknown' and not getattr(ob, '_retried', False):
+        # solver instability insurance: one more attempt with another seed and a three times larger budget
+        s3 = z3.Solver()
+        s3.set('timeout', 3 * z3_timeout_ms)
+        s3.set('random_seed', 7)
+        for a in enc.assertions:
+            s3.add(a)
+        try:
+            r3 = s3.check()
+        except z3.Z3Exception:
+            r3 = z3.unknown
+        if r3 == z3.unsat:
+            ob.result = 'unsat'
+            ob.solver = 'z3'
+            ob.reason = ''
     ob.time = time.time() - t0
     return ob.result
 
